@@ -14,6 +14,8 @@ THEOREMS = [
     (NS + "C06_fragments_history", "full"),
     (NS + "C06_fresh_inv", "full"),
 ]
+# secondary tie (DESIGN 4.2): kernels regenerated from the source on every run, proved equal to the model (Props/Equiv<Group>.lean)
+EQUIV = {"Frag": ["Mpgs.Equiv.gen_split_loop", "Mpgs.Equiv.gen_split"]}
 ASSUMPTIONS = [
     "history level (C06_fragments_history): for every sequence of authentic fragment arrivals - any order, repetition, interleaving of ids, "
     "arrival times and hence any pattern of context expiry - no exception is raised and every message delivered by reassembly is the "
